@@ -290,6 +290,136 @@ def gen_cases(rng, count, probes=False):
     return [gen_case(rng, probes) for _ in range(count)]
 
 
+# ---------------------------------------------------------------------------------------------
+# boundary-size stream: the Lean model counts in unbounded Nat, so C++ size-dependent paths (MemoryPool's count%4
+# padding, SparseVector's min(size,1000)-slot allocation steps, the max-index duplicate marker, int block/stride
+# arguments, 32-bit index type) are only tied by running sizes just below / at / above the boundaries.
+# Data are sparse (mostly zero); the interesting entries sit at the HIGH end (last scalars / highest indices).
+# ---------------------------------------------------------------------------------------------
+BOUNDARY_QUICK = [127, 128, 129, 255, 256, 257, 1000, 1001]
+BOUNDARY_THOROUGH = [32767, 32768, 65535, 65536, 65537]
+
+
+def hi_data(rng, n, k=3, nonzero_all=False):
+    """n scalars, zeros except up to k entries among the last positions (always the very last one)"""
+    d = [Fraction(0)] * n
+    if n == 0:
+        return d
+    pos = {n - 1}
+    for _ in range(k - 1):
+        pos.add(max(0, n - 1 - rng.randrange(min(n, 6))))
+    for q in pos:
+        d[q] = Fraction(rng.choice([-1, 1]) * rng.randint(1, 9), rng.randint(1, 4))
+    if nonzero_all:
+        d = [v if v != 0 else Fraction(1) for v in d]
+    return d
+
+
+def gen_boundary(rng, tier):
+    cases = []
+    sizes = list(BOUNDARY_QUICK) + (BOUNDARY_THOROUGH if tier == "thorough" else [])
+    dense_ops = dict(MUT_OPS, **RED_OPS)
+    blk_ops = {k: v for k, v in BLK_OPS.items() if k not in ("ccopy", "ccopyto")}
+    for n in sizes:
+        big = n > 2000
+        # every dense kernel in every aliasing branch at every boundary size (for the very large sizes: one
+        # random branch per kernel); extreme / only non-zero values in the last positions
+        for op, base in dense_ops.items():
+            pats = PATTERNS[len(base)] if not big else [rng.choice(PATTERNS[len(base)])]
+            for pat in pats:
+                scal = [gen_scalar(rng)] if op in ("axpy", "scale", "cinv", "format") else ([Fraction(0)] if op == "copy" else [])
+                datas = [hi_data(rng, n, nonzero_all=(op in ("cinv", "minabs", "min", "max"))) for _ in set(pat)]
+                if op in ("min", "max", "minabs"):
+                    # the extreme value is the very last scalar
+                    datas[0][-1] = {"min": Fraction(-7), "max": Fraction(7), "minabs": Fraction(1, 3)}[op]
+                cases.append("%s %s %d %s D 1 %d %s" % (op, pat, rng.randint(0, 1), fl(scal), n, " ".join(fl(d) for d in datas)))
+        # blocked vector whose pod size is n (or just above): per-component kernels, the last block decides
+        for op, base in blk_ops.items():
+            if big and rng.random() < 0.5:
+                continue
+            pats = PATTERNS[len(base)] if not big else [rng.choice(PATTERNS[len(base)])]
+            modes = ["pod", "count"] if (len(base) == 1 and not big) else [rng.choice(["pod", "count"])]
+            for pat, mode in [(pt, md) for pt in pats for md in modes]:
+                b = rng.choice([2, 3, 4])
+                # the boundary is crossed by the scalar (pod) size or by the number of blocks
+                nb = (n + b - 1) // b if mode == "pod" else n
+                scal = [gen_scalar(rng) for _ in range(b)] if op in ("axpyb", "scaleb") else []
+                nz = op in ("maxabsb", "minabsb", "minb", "maxb")
+                datas = [hi_data(rng, nb * b, k=b + 1) for _ in set(pat)]
+                if nz:
+                    # all entries equal, the extreme of every component in the second-to-last block and a decoy
+                    # (between the common value and the extreme) in the last block: a stale / narrowed running
+                    # index makes the decoy win
+                    base_v, ext, decoy = {"maxabsb": (1, -9, 2), "maxb": (1, 9, 2), "minabsb": (5, Fraction(-1, 3), 2),
+                                          "minb": (5, -9, 2)}[op]
+                    d0 = [Fraction(base_v)] * (nb * b)
+                    for j in range(b):
+                        d0[nb * b - 2 * b + j] = Fraction(ext) + (j if op in ("maxb",) else 0)
+                        d0[nb * b - b + j] = Fraction(decoy)
+                    datas[0] = d0
+                cases.append("%s %s 0 %s B %d 1 %d %s" % (op, pat, fl(scal), b, nb, " ".join(fl(d) for d in datas)))
+        if n <= 1001 or tier == "thorough":
+            # component copy into / out of the LAST component, flat <-> composed copy with the blocked part first
+            b = 4
+            nb = n
+            if n <= 1001:
+                cases.append("ccopy ab 0 1 %d/1 B %d 1 %d %s %s" % (b - 1, b, nb, fl(hi_data(rng, nb * b)), fl(hi_data(rng, nb))))
+            k1 = max(1, n // 4)
+            sz = [k1, n - 2 * k1 if n - 2 * k1 >= 0 else 0]
+            tot = sz[0] * 2 + sz[1]
+            op = rng.choice(["flatcopy", "flatcopyinv", "flatrtinv"])
+            cases.append("%s ab 0 0 T 2 B 2 D 2 %d %d %s %s" % (op, sz[0], sz[1], fl(hi_data(rng, tot)), fl(hi_data(rng, tot))))
+    # sparse vectors: allocation steps of min(size, 1000) slots -> reallocation on write 1001, 2001, ...;
+    # sort() of > 1000 entries; duplicates and the last writes at the highest indices; 32-bit index type
+    counts = [999, 1000, 1001, 1002, 2000, 2001, 2002] if tier == "quick" else [999, 1000, 1001, 1002, 2000, 2001, 2002, 3001]
+    for nw in counts:
+        for b in ([0] if tier == "quick" else [0, 2]) + ([32, 2] if nw in (1001, 2001) else []) + ([322] if nw in (1001, 2001) else []):
+            w = max({32: 0, 322: 2}.get(b, b), 1)
+            size = rng.choice([nw, nw + 1, nw + 500, 1000, 1001]) if nw <= 1002 else nw + rng.choice([0, 1, 499])
+            size = max(size, 2)
+            # no duplicates before the last three writes for asc / desc (size >= nw - 3), so that every
+            # reallocation really happens at write 1001, 2001, ...
+            order = rng.choice(["desc", "asc", "desc", "asc", "random"])
+            if order != "random":
+                size = max(size, nw)
+            midread = rng.random() < 0.3
+            steps = []
+            for k in range(nw):
+                if order == "desc":
+                    idx = (size - 1 - k) % size
+                elif order == "asc":
+                    idx = k % size
+                else:
+                    idx = rng.randrange(size)
+                if k >= nw - 3:
+                    idx = size - 1 - (k % 2)              # the last writes: duplicates at the highest indices
+                vals = [Fraction(k % 7 - 3) if k < nw - 3 else Fraction(rng.randint(1, 9) * 100 + k % 10) for _ in range(w)]
+                steps.append("w %d %s" % (idx, " ".join(vlib.frac_str(v) for v in vals)))
+                if midread and k in (999, 1000, 1999, 2000):
+                    steps.append("r %d" % (size - 1))      # a read (sort) right at the allocation boundary
+            steps += ["r %d" % (size - 1), "r %d" % (size - 2), "r 0", "u", "m maxabs", "m min"]
+            cases.append("svs %d %d %d %s" % (b, size, len(steps), " ".join(steps)))
+    return cases
+
+
+def describe_boundary(case):
+    t = case.split()
+    keys = ["op:" + t[0]]
+    try:
+        p = parse_case(case)
+    except Exception:
+        return keys
+    if p["op"] == "svs":
+        nwr = sum(1 for st in p["steps"] if st[0] == "w")
+        keys.append("sparse-writes:%d" % nwr)
+        keys.append("sparse-size:%d" % p["size"])
+        keys.append("index-type:%s" % ("uint32" if t[1] in ("32", "322") else "uint64"))
+    else:
+        keys.append("pod-size:%d" % pod_len(p["shape"], p["sizes"]))
+    return keys
+
+
+
 CORPUS = [
     # alias branches with the scalars that make them degenerate (1 + a == 0), empty and one-element vectors
     "axpy aa 0 1 -1/1 D 1 3 3 1/1 2/1 3/1",
@@ -367,6 +497,7 @@ def parse_case(case):
     op = c.tok()
     if op == "svs":
         b, size, n = c.nat(), c.nat(), c.nat()
+        b = {32: 0, 322: 2}.get(b, b)          # 32 / 322: 32-bit index type variants
         w = max(b, 1)
         steps = []
         for _ in range(n):
@@ -759,11 +890,20 @@ def main(argv):
                   "rationals, magnitudes 2^-40..2^40; blocked-only members and component copies; sparse vectors "
                   "through element access; non-trivial = flat size >= 2 and (aliased operands or block size > 1 or "
                   "nesting depth >= 2), sparse: duplicate or unsorted writes")
-    rc = vlib.run_pipeline(PROP, args.tier, args.seed, lean, [st], t0, assumptions=[
+    streams = [st]
+    if not args.replay:
+        brng = random.Random(args.seed * 7919 + 404)
+        streams.append(vlib.Stream("boundary-sizes", gen_boundary(brng, args.tier), [binary], vlib.driver_cmd(PROP),
+                                   oracle=oracle, nontrivial=lambda c: True, describe=describe_boundary,
+                                   signature=signature, canon=canon, model_filter=model_filter))
+    rc = vlib.run_pipeline(PROP, args.tier, args.seed, lean, streams, t0, assumptions=[
         "numerics at the exact rational type Q (rounding of float/double is out of scope of the exact comparison)",
         "Math::sqrt(Q) is the deterministic truncated square root of harness/common/exact_q.hpp; the oracle accepts "
         "norms within that truncation (2^-40 per root)",
         "division by zero in component_invert is outside the property (Q aborts, IEEE types give inf)",
-        "min/max element members are not defined on an empty vector"],
+        "min/max element members are not defined on an empty vector",
+        "Index / IT_ / int block arguments are unbounded Nat in the model; the boundary-sizes stream (pod sizes 127..1001, "
+        "thorough 32767..65537; 999..3001 sparse writes across the 1000-slot allocation steps; uint32 index type) is what "
+        "ties the size-dependent C++ paths"],
         extra_cov={"rule": stats_rule, "defect_probes_enabled": probes})
     return rc
